@@ -48,10 +48,31 @@ fn main() {
             }
         };
         let case = body.get("case").cloned().unwrap_or(body.clone());
-        let a = (entry.replay)(&case);
-        let b = (entry.replay)(&case);
+        // two executions, each on a thread of its own (so that neither sees thread-local state
+        // the other - or this thread - left behind in the code under test)
+        let replay_fn = entry.replay;
+        let once = |case: serde_json::Value| -> Result<String, String> {
+            std::thread::Builder::new()
+                .stack_size(64 << 20)
+                .spawn(move || {
+                    instr::disarm_all();
+                    replay_fn(&case)
+                })
+                .expect("spawn")
+                .join()
+                .unwrap_or_else(|_| Err("replay thread panicked outside the code under test".to_string()))
+        };
+        let a = once(case.clone());
+        let b = once(case.clone());
         if a != b {
             eprintln!("replay diverged between two executions of the same case:\n  1: {:?}\n  2: {:?}", a, b);
+            if id == "C20" {
+                // two executions of one case giving different results is C20's own subject
+                println!("complaint: two executions of the same case on fresh threads differ: {:?} vs {:?}", a, b);
+                println!("case: {}", case);
+                println!("VIOLATION property={} replay={}", id, path);
+                std::process::exit(1);
+            }
             std::process::exit(2);
         }
         match a {
